@@ -1,5 +1,331 @@
 import DesperModel.Dict
 import DesperModel.Proto
+/-
+  Model of `desper/events.py` (EventDispatcher, event_handler).
+
+  Mirrors, statement by statement:
+    add_handler              events.py:50-69
+    is_handler               events.py:71-75
+    _remove_weak_handler     events.py:77-88   (also the weak-reference callback)
+    remove_handler           events.py:90-95
+    dispatch                 events.py:97-116  (snapshot of the listener set; dead referents skipped)
+    dispatch_enabled setter  events.py:122-136 (pop one queued event at a time while enabled)
+    clear                    events.py:138-148
+    event_handler            events.py:151-177
+
+  Callbacks are not opaque: a call is a log entry followed by the receiver's scripted reaction
+  (a list of operations of this same model, possibly ending in `raise`).  Re-entrancy is real
+  recursion, bounded by a fuel parameter that stands for "the user's program terminates".
+
+  Python leaves the iteration order of the listener `set` unspecified.  The model is a relation:
+  it follows a hint stream (the receivers in the order the implementation called them) and
+  validates every hint (it must name a live member of the current snapshot that has not been
+  called yet); an invalid hint makes the run end with `Outcome.badHint`.
+-/
 namespace Desper.Disp
-def runScenario (_lines : List String) : List String := ["not-implemented"]
+open Desper
+
+abbrev Obj := Nat
+abbrev Mapping := Dict String String
+
+structure ClassDecl where
+  bases : List Nat
+  names : List String
+  kw : List (String × String)
+deriving Repr, Inhabited
+
+/-- `event_handler(*names, **kw)(cls)` : events.py:161-175.  `inherited` is what
+`getattr(cls, '__events__', ...)` finds through the bases (none: attribute absent). -/
+def decorate (inherited : Option Mapping) (names : List String) (kw : List (String × String)) :
+    Option Mapping :=
+  if names.isEmpty && kw.isEmpty then inherited
+  else
+    let base := inherited.getD []
+    let m1 := names.foldl (fun m n => Dict.set m n n) base
+    some (kw.foldl (fun m p => Dict.set m p.1 p.2) m1)
+
+/-- attribute lookup of `__events__` through the bases (single handler lineage, see DESIGN §2) -/
+def inheritedOf (tbl : List (Option Mapping)) (bases : List Nat) : Option Mapping :=
+  bases.findSome? (fun b => (tbl[b]?).join)
+
+/-- `__events__` of every class, in creation order -/
+def classTable (cs : List ClassDecl) : List (Option Mapping) :=
+  cs.foldl (fun tbl c => tbl ++ [decorate (inheritedOf tbl c.bases) c.names c.kw]) []
+
+inductive Op where
+  | add (o : Obj)
+  | remove (o : Obj)
+  | dispatch (ev : String) (args : String)
+  | enable (b : Bool)
+  | clear
+  | drop (o : Obj)
+  | isHandler (o : Obj)
+  | raise (e : String)
+deriving Repr, DecidableEq, Inhabited
+
+inductive Outcome where
+  | ok
+  | raised (e : String)
+  | outOfFuel
+  | badHint
+deriving Repr, DecidableEq, Inhabited
+
+inductive Entry where
+  | cb (recv : Option Obj) (meth : String) (args : String)
+  | ish (o : Obj) (b : Bool)
+  | gone (o : Obj)
+  | res (out : Outcome)
+deriving Repr, DecidableEq, Inhabited
+
+structure Universe where
+  /-- `type(o).__events__` of every declared object (none: not a handler) -/
+  mapping : Obj → Option Mapping
+  /-- scripted reaction of the k-th invocation of a method of an object -/
+  reaction : Obj → String → Nat → List Op
+
+structure St where
+  events : Dict String (List (Obj × String)) := []
+  handlers : Dict Obj (List (String × String)) := []
+  enabled : Bool := true
+  queue : List (String × String) := []
+  /-- objects the program still holds a strong reference to -/
+  held : List Obj := []
+  /-- receivers of the callbacks that are executing now (innermost first) -/
+  pinned : List Obj := []
+  /-- dropped while pinned: finalised when their last executing callback returns -/
+  dying : List Obj := []
+  calls : Dict (Obj × String) Nat := []
+  hints : List Obj := []
+  /-- newest first -/
+  log : List Entry := []
+deriving Inhabited
+
+def St.alive (s : St) (r : Obj) : Bool := s.held.contains r || s.pinned.contains r
+
+/-- events.py:77-88 -/
+def removeWeak (s : St) (r : Obj) : St × Outcome :=
+  match Dict.get? s.handlers r with
+  | none => (s, .ok)
+  | some entries =>
+    let step := fun (acc : Dict String (List (Obj × String)) × Outcome) (p : String × String) =>
+      match acc.2 with
+      | .ok =>
+        match Dict.get? acc.1 p.1 with
+        | none => (acc.1, Outcome.raised "KeyError")
+        | some l =>
+          if l.contains (r, p.2) then (Dict.set acc.1 p.1 (l.filter (· ≠ (r, p.2))), Outcome.ok)
+          else (acc.1, Outcome.raised "KeyError")
+      | _ => acc
+    let (ev, out) := entries.foldl step (s.events, Outcome.ok)
+    match out with
+    | .ok => ({ s with events := ev, handlers := Dict.erase s.handlers r }, .ok)
+    | o => ({ s with events := ev }, o)
+
+/-- events.py:50-69 -/
+def addHandler (s : St) (r : Obj) (m : Mapping) : St :=
+  let ev := m.foldl (fun ev p => Dict.set ev p.1 (setAdd ((Dict.get? ev p.1).getD []) (r, p.2)))
+    s.events
+  { s with events := ev, handlers := Dict.set s.handlers r m }
+
+/-- the weak reference callback fired when the last strong reference goes away -/
+def finalize (s : St) (r : Obj) : St :=
+  (removeWeak { s with dying := s.dying.filter (· ≠ r) } r).1
+
+def dropObj (s : St) (r : Obj) : St :=
+  let s := { s with held := s.held.filter (· ≠ r) }
+  if s.pinned.contains r then { s with dying := r :: s.dying } else finalize s r
+
+def unpin (s : St) (r : Obj) : St :=
+  let s := { s with pinned := s.pinned.erase r }
+  if s.dying.contains r && !s.pinned.contains r then finalize s r else s
+
+def St.push (s : St) (e : Entry) : St := { s with log := e :: s.log }
+
+mutual
+/-- one operation; the state at the stop point is always returned -/
+def execOp (U : Universe) : Nat → St → Op → St × Outcome
+  | 0, s, _ => (s, .outOfFuel)
+  | fuel + 1, s, op =>
+    match op with
+    | .raise e => (s, .raised e)
+    | .isHandler o =>
+      if s.held.contains o then (s.push (.ish o (Dict.contains s.handlers o)), .ok)
+      else (s.push (.gone o), .ok)
+    | .add o =>
+      if s.held.contains o then
+        match U.mapping o with
+        | some m => (addHandler s o m, .ok)
+        | none => (s, .raised "AssertionError")
+      else (s.push (.gone o), .ok)
+    | .remove o =>
+      if s.held.contains o then removeWeak s o else (s.push (.gone o), .ok)
+    | .drop o =>
+      if s.held.contains o then (dropObj s o, .ok) else (s.push (.gone o), .ok)
+    | .clear => ({ s with queue := [], events := [], handlers := [], enabled := true }, .ok)
+    | .dispatch ev args =>
+      -- events.py:105-116
+      match Dict.get? s.events ev with
+      | none => (s, .ok)
+      | some listeners =>
+        if !s.enabled then ({ s with queue := s.queue ++ [(ev, args)] }, .ok)
+        else deliver U fuel s listeners args
+    | .enable b =>
+      -- events.py:122-136
+      let s := { s with enabled := b }
+      if !b then (s, .ok) else release U fuel s
+
+/-- a list of operations, stopping at the first one that does not complete -/
+def execOps (U : Universe) : Nat → St → List Op → St × Outcome
+  | 0, s, _ => (s, .outOfFuel)
+  | _ + 1, s, [] => (s, .ok)
+  | fuel + 1, s, op :: rest =>
+    match execOp U fuel s op with
+    | (s', .ok) => execOps U fuel s' rest
+    | r => r
+
+/-- iterate the snapshot; `remaining` are the members not called yet -/
+def deliver (U : Universe) : Nat → St → List (Obj × String) → String → St × Outcome
+  | 0, s, _, _ => (s, .outOfFuel)
+  | fuel + 1, s, remaining, args =>
+    let live := remaining.filter (fun p => s.alive p.1)
+    if live.isEmpty then (s, .ok)
+    else
+      match s.hints with
+      | [] => (s, .badHint)
+      | h :: hs =>
+        match live.find? (fun p => p.1 = h) with
+        | none => (s, .badHint)
+        | some (r, m) =>
+          let k := (Dict.get? s.calls (r, m)).getD 0
+          let s := { s with hints := hs, calls := Dict.set s.calls (r, m) (k + 1),
+                            pinned := r :: s.pinned, log := .cb (some r) m args :: s.log }
+          match execOps U fuel s (U.reaction r m k) with
+          | (s', .ok) => deliver U fuel (unpin s' r) (remaining.filter (· ≠ (r, m))) args
+          | (s', o) => (unpin s' r, o)
+
+/-- the enabling assignment: events.py:133-136 -/
+def release (U : Universe) : Nat → St → St × Outcome
+  | 0, s => (s, .outOfFuel)
+  | fuel + 1, s =>
+    match s.queue with
+    | [] => (s, .ok)
+    | (ev, args) :: q =>
+      if !s.enabled then (s, .ok)
+      else
+        match execOp U fuel { s with queue := q } (.dispatch ev args) with
+        | (s', .ok) => release U fuel s'
+        | r => r
+end
+
+/-- top-level operation: its outcome is logged (the harness catches the exception) -/
+def topOp (U : Universe) (fuel : Nat) (s : St) (op : Op) : St :=
+  let (s', o) := execOp U fuel s op
+  s'.push (.res o)
+
+def run (U : Universe) (fuel : Nat) (s : St) (ops : List Op) : St :=
+  ops.foldl (topOp U fuel) s
+
+/-! ### line protocol -/
+open Proto
+
+def parseOp : List String → Option Op
+  | ["add", o] => o.toNat?.map .add
+  | ["remove", o] => o.toNat?.map .remove
+  | ["dispatch", ev, args] => some (.dispatch ev args)
+  | ["enable", b] => (bool? b).map .enable
+  | ["clear"] => some .clear
+  | ["drop", o] => o.toNat?.map .drop
+  | ["ishandler", o] => o.toNat?.map .isHandler
+  | ["raise", e] => some (.raise e)
+  | _ => none
+
+/-- `op ; op ; op` -/
+def parseOps (toks : List String) : Option (List Op) :=
+  let groups := toks.foldr (fun t acc =>
+      if t = ";" then [] :: acc else match acc with
+        | [] => [[t]]
+        | g :: gs => (t :: g) :: gs) [[]]
+  (groups.filter (· ≠ [])).mapM parseOp
+
+def parsePairs (s : String) : Option (List (String × String)) :=
+  (splitList s).mapM (fun t => match t.splitOn ":" with
+    | [a, b] => some (a, b)
+    | _ => none)
+
+def showOutcome : Outcome → String
+  | .ok => "ok"
+  | .raised e => s!"raised {e}"
+  | .outOfFuel => "hang"
+  | .badHint => "bad-hint"
+
+def showMapping : Option Mapping → String
+  | none => "none"
+  | some m =>
+    let sorted := m.foldl (fun acc p =>
+      acc.takeWhile (fun q => q.1 ≤ p.1) ++ [p] ++ acc.dropWhile (fun q => q.1 ≤ p.1)) []
+    joinList (sorted.map fun p => s!"{p.1}:{p.2}")
+
+def showEntry : Entry → String
+  | .cb (some r) m a => s!"cb {r} {m} {a}"
+  | .cb none m a => s!"cb None {m} {a}"
+  | .ish o b => s!"ish {o} {showBool b}"
+  | .gone o => s!"gone {o}"
+  | .res o => s!"res {showOutcome o}"
+
+structure Parsed where
+  classes : List ClassDecl := []
+  objClass : Dict Obj Nat := []
+  reactions : Dict (Obj × String × Nat) (List Op) := []
+  hints : List Obj := []
+  ops : List Op := []
+  bad : Bool := false
+
+def stripPrefix (p s : String) : Option String :=
+  if s.startsWith p then some (s.drop p.length).toString else none
+
+def parseLine (p : Parsed) (line : String) : Parsed :=
+  match tokens line with
+  | ["class", cid, b, n, k] =>
+    match cid.toNat?, (stripPrefix "bases=" b).bind natList?, stripPrefix "names=" n,
+          (stripPrefix "kw=" k).bind parsePairs with
+    | some c, some bs, some ns, some kw =>
+      if c = p.classes.length then
+        { p with classes := p.classes ++ [{ bases := bs, names := splitList ns, kw := kw }] }
+      else { p with bad := true }
+    | _, _, _, _ => { p with bad := true }
+  | "obj" :: o :: c :: _ =>
+    match o.toNat?, (stripPrefix "class=" c).bind String.toNat? with
+    | some o, some c => { p with objClass := Dict.set p.objClass o c }
+    | _, _ => { p with bad := true }
+  | "react" :: o :: m :: k :: ":" :: rest =>
+    match o.toNat?, k.toNat?, parseOps rest with
+    | some o, some k, some ops => { p with reactions := Dict.set p.reactions (o, m, k) ops }
+    | _, _, _ => { p with bad := true }
+  | ["hint", l] =>
+    match natList? l with
+    | some hs => { p with hints := p.hints ++ hs }
+    | none => { p with bad := true }
+  | "op" :: rest =>
+    match parseOp rest with
+    | some op => { p with ops := p.ops ++ [op] }
+    | none => { p with bad := true }
+  | [] => p
+  | _ => { p with bad := true }
+
+def Parsed.universe (p : Parsed) : Universe :=
+  let tbl := classTable p.classes
+  { mapping := fun o => ((Dict.get? p.objClass o).bind (fun c => tbl[c]?)).join
+    reaction := fun o m k => (Dict.get? p.reactions (o, m, k)).getD [] }
+
+def defaultFuel : Nat := 100000
+
+def runScenario (lines : List String) : List String :=
+  let p := lines.foldl parseLine {}
+  if p.bad then ["bad-op"] else
+  let tbl := classTable p.classes
+  let evLines := (List.range tbl.length).map fun c => s!"events {c} {showMapping (tbl[c]?).join}"
+  let s0 : St := { held := p.objClass.keys, hints := p.hints }
+  let s := run p.universe defaultFuel s0 p.ops
+  evLines ++ s.log.reverse.map showEntry
+
 end Desper.Disp
